@@ -253,7 +253,8 @@ def run_grammar(spec, prop, R, tier, batch, stats):
         quick = tier == "quick"
         mind = ctx.mind
         if prop == "C03":
-            depths = [mind - 1, mind, mind + 1, mind + 2] if quick else [mind - 1, mind, mind + 1, mind + 2, mind + 3]
+            depths = [mind - 1, mind, mind + 1, mind + 2, mind + 4] if quick else \
+                [mind - 1, mind, mind + 1, mind + 2, mind + 3, mind + 4, mind + 6]
             for d in depths:
                 if d < 0:
                     continue
